@@ -254,6 +254,10 @@ def check_scalar_tables(ctx, prog, tag):
             continue
         n += 1
         bad = []
+        # a narrow method may delegate to the widest one of its family (`serialize_i8` -> `serialize_i64(i64::from(v))`):
+        # sibling methods of the serializer are read as part of the method
+        from .. import inline
+        f = inline.view(prog, f, keep=lambda t: not ("ValueSerializer" in t and "::serialize_" in t), allow_pub=True)
         for bb, i, st in f.all_stmts():
             rv = st.get("rv", {})
             if rv.get("k") == "cast":
